@@ -65,7 +65,7 @@ void run_case(uint64_t idx, Rng& r) {
                   Vec un, in2;
                   std::set_union(A.st.ent.begin(), A.st.ent.end(), B.st.ent.begin(), B.st.ent.end(), std::back_inserter(un));
                   std::set_intersection(A.st.ent.begin(), A.st.ent.end(), B.st.ent.begin(), B.st.ent.end(), std::back_inserter(in2));
-                  want = static_cast<double>(in2.size()) / static_cast<double>(un.size());
+                  want = un.empty() ? 0.5 : static_cast<double>(in2.size()) / static_cast<double>(un.size());   // un.empty(): not reachable with well-formed inputs
                   same = A.st.ent == B.st.ent;
                   count("jaccard_exact");
                   if (in2.size() > 0 && in2.size() < un.size()) count("jaccard_exact_fractional");
